@@ -15,10 +15,10 @@ import (
 
 // Gateway wraps the real resgate service under test.
 type Gateway struct {
-	s    *Sim
-	serv *server.Service
-	cfg  server.Config
-	wsh  http.Handler
+	s      *Sim
+	serv   *server.Service
+	cfg    server.Config
+	wsh    http.Handler
 	stopCh <-chan error
 }
 
@@ -127,24 +127,24 @@ func (g *Gateway) gauges() map[string]float64 {
 
 // HTTPCall is one HTTP request in flight or finished.
 type HTTPCall struct {
-	s      *Sim
-	N      int
-	Method string
-	Path   string
-	Body   string
-	Header http.Header
-	rec    *httptest.ResponseRecorder
-	done   chan struct{}
-	Done   bool
-	Step   int
-	Cut    int
-	DoneStep int
-	DoneCut  int
-	Status int
-	RespBody string
+	s          *Sim
+	N          int
+	Method     string
+	Path       string
+	Body       string
+	Header     http.Header
+	rec        *httptest.ResponseRecorder
+	done       chan struct{}
+	Done       bool
+	Step       int
+	Cut        int
+	DoneStep   int
+	DoneCut    int
+	Status     int
+	RespBody   string
 	RespHeader http.Header
-	CIdx   int
-	Meta   any
+	CIdx       int
+	Meta       any
 }
 
 func (s *Sim) httpDo(method, path, body string, hdr http.Header) *HTTPCall {
